@@ -98,6 +98,16 @@ func idxAlphabet(extra bool) (calls []e1.Call, ids [][]interface{}) {
 	add(cInsertMany("d", "c", true, bD("_id", int32(5), "a", int32(7)), bD("_id", int32(6), "a", 7.0), bD("_id", int32(7), "a", int32(8))), int32(5), int32(6), int32(7))
 	add(cDelete("d", "c", false, bD("_id", int32(1))))
 	add(cDelete("d", "c", true, bD("a", int32(1))))
+	add(cDelete("d", "c", true, bD()))
+	// keys below documents in arrays and keys that are arrays themselves, changed in place through index paths
+	ins(bD("_id", int32(4), "a", bson.A{bson.A{int32(7)}, bson.A{int32(1)}}, "items", bson.A{bD("k", int32(1)), bD("k", int32(2))}))
+	ins(bD("_id", int32(5), "a", bson.A{bson.A{int32(3)}}, "items", bson.A{bD("k", int32(3))}))
+	ins(bD("_id", int32(6), "items", bson.A{bD("k", int32(2))}))
+	add(cUpdate("d", "c", false, bD("_id", int32(4)), bD("$set", bD("items.1.k", int32(3), "a.0.0", int32(3))), false))
+	add(cUpdate("d", "c", false, bD("_id", int32(4)), bD("$inc", bD("items.0.k", int32(1))), false))
+	// neighbouring numbers of different types beyond 2^53
+	ins(bD("_id", int32(7), "a", int64(1)<<53+1))
+	ins(bD("_id", int32(8), "a", float64(int64(1)<<53)))
 	uniq := func(key bson.D, o idxOpt) {
 		c := cCreateIndex("d", "c", key, o)
 		k := key
@@ -112,6 +122,7 @@ func idxAlphabet(extra bool) (calls []e1.Call, ids [][]interface{}) {
 		add(c)
 	}
 	uniq(bD("a", int32(1)), idxOpt{unique: true})
+	uniq(bD("items.k", int32(1)), idxOpt{unique: true})
 	uniq(bD("a", int32(1), "b", int32(1)), idxOpt{unique: true})
 	uniq(bD("a", int32(1)), idxOpt{unique: true, partial: bD("b", bD("$gt", int32(0))), name: "part"})
 	add(cDropIndex("d", "c", "a_1"))
@@ -283,6 +294,17 @@ func init() {
 		// exactness needs the error text: wrap the last call to capture it
 		cfg.Before = func(w *world.World, path []int) interface{} { return nil }
 		st := e1.BFS(cfg)
+		// the same search from states in which a document with keys below array elements and a unique index exist
+		for _, seed := range [][]string{
+			{`d.c.InsertOne({"_id":{"$numberInt":"4"}`, `d.c.CreateIndex({"items.k"`},
+			{`d.c.InsertOne({"_id":{"$numberInt":"4"}`, `d.c.CreateIndex({"a":{"$numberInt":"1"}},unique=true,partial=null,name=""`},
+		} {
+			ss := bfsSeeded(cfg, depth-1, seed...)
+			st.States += ss.States
+			st.Transitions += ss.Transitions
+			st.ReplayCalls += ss.ReplayCalls
+			st.Exhaustive = st.Exhaustive && ss.Exhaustive
+		}
 		// exactness pass: every (state, single-write call) whose call reports a uniqueness error
 		exact := e1.Config{ReplayNames: c.ReplayCalls(), Alphabet: calls, Depth: depth, Stop: r.TooMany}
 		exact.After = func(w *world.World, path []int, pre interface{}, obs string) {
